@@ -27,7 +27,7 @@ ASSUMPTIONS = ['theory nat; variables x y: nat, p: bool, a: \'a, f: nat=>nat, g:
 RULE = ('one evaluation = one (term, erasure mask, declared-or-not) skeleton; distinct = distinct skeletons; non-trivial = inference returned a term (judged) '
         'or the skeleton is the erasure of a declared-variable term (recovery obligation)')
 EXPLANATION = 'see LEVEL_TEXT'
-BUDGET_S = {'quick': 240, 'thorough': 1200}
+BUDGET_S = {'quick': 240, 'thorough': 900}
 
 
 def bounds(tier):
